@@ -27,6 +27,7 @@ fn add<'i>(b: PairsBuilder<'i, R>, t: &Tree) -> PairsBuilder<'i, R> {
     match &t.tag { Some(tag) => b.tag(intern(tag)), None => b }
 }
 
+const TAGS: [&str; 3] = ["t", "tag", "é"];
 enum View<'i> { P(Pairs<'i, R>), F(FlatPairs<'i, R>), T(Tokens<'i, R>) }
 fn summary(p: &Pair<'_, R>) -> String { let s = p.as_span(); format!("r{}@{}-{}", p.as_rule().0, s.start(), s.end()) }
 fn show_tok(t: &Token<'_, R>) -> String { match t { Token::Start { rule, pos } => format!("S{}@{}", rule.0, pos.pos()), Token::End { rule, pos } => format!("E{}@{}", rule.0, pos.pos()) } }
@@ -45,6 +46,10 @@ fn step<'i>(cur: View<'i>, stack: &mut Vec<View<'i>>, op: &str) -> (String, View
         ("g", View::P(mut v)) => match v.next() { Some(p) => { let s = summary(&p); stack.push(View::P(v)); (s, View::P(Pairs::single(p))) } None => ("_".into(), View::P(v)) },
         ("x", View::P(mut v)) => match v.next() { Some(p) => { let lc = p.line_col(); (format!("{}:tag={}:lc={},{}:str={}:alt={}", summary(&p), p.as_node_tag().map(hexs).unwrap_or("_".into()), lc.0, lc.1, hexs(p.as_str()), hexs(&format!("{:#}", p))), View::P(v)) } None => ("_".into(), View::P(v)) },
         ("T", View::P(mut v)) => match v.next() { Some(p) => { let s = summary(&p); stack.push(View::P(v)); (s, View::T(p.tokens())) } None => ("_".into(), View::P(v)) },
+        (o, View::P(v)) if o.len() == 2 && (o.starts_with('F') || o.starts_with('W')) && "012".contains(&o[1..]) => {
+            let tag = TAGS[o[1..].parse::<usize>().unwrap()];
+            if o.starts_with('F') { (v.find_first_tagged(tag).as_ref().map(summary).unwrap_or("_".into()), View::P(v)) }
+            else { (format!("[{}]", v.clone().find_tagged(tag).map(|p| summary(&p)).collect::<Vec<_>>().join(",")), View::P(v)) } }
         ("f", View::P(v)) => { let f = v.clone().flatten(); stack.push(View::P(v)); ("f".into(), View::F(f)) }
         ("t", View::P(v)) => { let t = v.clone().tokens(); stack.push(View::P(v)); ("t".into(), View::T(t)) }
         ("t", View::F(v)) => { let t = v.clone().tokens(); stack.push(View::F(v)); ("t".into(), View::T(t)) }
@@ -91,6 +96,12 @@ fn spec_step(cur: Spec, stack: &mut Vec<Spec>, op: &str, input: &str) -> (Option
         ("x", Spec::P(mut v)) => if v.is_empty() { (Some("_".into()), Spec::P(v)) } else { let t = v.remove(0); let lc = spec_lc(input, t.a);
             (Some(format!("{}:tag={}:lc={},{}:str={}:alt={}", t_summary(&t), t.tag.as_ref().map(|x| hexs(x)).unwrap_or("_".into()), lc.0, lc.1, hexs(&input[t.a..t.b]), hexs(&alt(&t)))), Spec::P(v)) },
         ("T", Spec::P(mut v)) => if v.is_empty() { (Some("_".into()), Spec::P(v)) } else { let t = v.remove(0); stack.push(Spec::P(v)); let mut o = vec![]; toks(std::slice::from_ref(&t), &mut o); (Some(t_summary(&t)), Spec::T(o)) },
+        (o, Spec::P(v)) if o.len() == 2 && (o.starts_with('F') || o.starts_with('W')) && "012".contains(&o[1..]) => {
+            // the pairs carrying the tag, in the order of flatten() (pre-order): the first of them / all of them
+            let tag = TAGS[o[1..].parse::<usize>().unwrap()];
+            let mut all = vec![]; preorder(&v, &mut all);
+            let hits: Vec<String> = all.iter().filter(|t| t.tag.as_deref() == Some(tag)).map(t_summary).collect();
+            (Some(if o.starts_with('F') { hits.first().cloned().unwrap_or("_".into()) } else { format!("[{}]", hits.join(",")) }), Spec::P(v)) }
         ("f", Spec::P(v)) => { let mut o = vec![]; preorder(&v, &mut o); stack.push(Spec::P(v)); (Some("f".into()), Spec::F(o)) }
         ("t", Spec::P(v)) => { let mut o = vec![]; toks(&v, &mut o); stack.push(Spec::P(v)); (Some("t".into()), Spec::T(o)) }
         ("t", Spec::F(v)) => { stack.push(Spec::F(v)); (None, Spec::T(vec![])) } // tokens of a partially walked flat view: window semantics, not specified by the tree
@@ -179,7 +190,7 @@ fn gen_forest(rng: &mut Rng, bounds: &[usize], lo: usize, hi: usize, depth: usiz
         let a = rng.range(cur, hi); let b = rng.range(a, hi);
         *count += 1;
         let kids = gen_forest(rng, bounds, a, b, depth - 1, count);
-        v.push(Tree { rule: rng.below(5) as u16 + 1, a: bounds[a], b: bounds[b], tag: if rng.chance(1, 5) { Some(rng.pick(&["t", "tag", "é"]).to_string()) } else { None }, kids });
+        v.push(Tree { rule: rng.below(5) as u16 + 1, a: bounds[a], b: bounds[b], tag: if rng.chance(1, 3) { Some(rng.pick(&["t", "t", "t", "tag", "é"]).to_string()) } else { None }, kids });
         cur = b;
     }
     v
@@ -210,7 +221,7 @@ fn main() {
                 if forest.iter().any(|t| t.kids.iter().any(|k| !k.kids.is_empty())) { nested += 1; }
                 let nops = rng.range(1, maxops);
                 let mut ops = vec![];
-                let pool: &[&str] = if json { &["n", "b", "n", "b", "l", "l", "p", "s", "c", "e", "i", "I", "u", "g", "x", "T", "f", "t", "D", "A", "G", "J"] } else { &["n", "b", "n", "b", "l", "l", "p", "s", "c", "e", "i", "I", "u", "g", "x", "T", "f", "t", "D", "A", "G"] };
+                let pool: &[&str] = if json { &["n", "b", "n", "b", "l", "l", "p", "s", "c", "e", "i", "I", "u", "g", "x", "T", "f", "t", "D", "A", "G", "J", "F0", "F0", "F1", "F2", "W0", "W1", "W2"] } else { &["n", "b", "n", "b", "l", "l", "p", "s", "c", "e", "i", "I", "u", "g", "x", "T", "f", "t", "D", "A", "G", "F0", "F0", "F1", "F2", "W0", "W1", "W2"] };
                 for _ in 0..nops { ops.push(rng.pick(pool).to_string()); }
                 let l = format!("W {} ({}) {}", hexs(&input), forest.iter().map(show_tree).collect::<Vec<_>>().join(" "), ops.join(" "));
                 let (i, v) = eval_line(&l, &mut stats);
